@@ -72,7 +72,10 @@ MapReps == {"string_any", "any_any", "int64_any", "typed"}
 \* nil_wide / nil_sub: a typed nil pointer to a CATALOGUE struct (*catalog.Wide, *catalog.Sub) - for an
 \* object mapped to that pointer type (layouts wide_p / sub_p) it has exactly the schema's own Go type and
 \* must be rejected as nil; for the by-value layouts (wide / sub) it is a value of the wrong type
-JunkClasses == {"tag", "bigint", "time", "struct", "ptr", "nilptr", "nilre", "func", "chan", "nil_wide", "nil_sub"}
+\* arr_*: fixed-size arrays ([2]int64, [2]string, [0]int, a defined array type) - no slice, but hashable, so they
+\* can also be map KEYS; map_arrkey: a map[[2]int64]string
+JunkClasses == {"tag", "bigint", "time", "struct", "ptr", "nilptr", "nilre", "func", "chan", "nil_wide", "nil_sub",
+                "arr_int2", "arr_str2", "arr0", "arr_named", "map_arrkey"}
 \* what a CBOR / JSON / YAML decoder can hand over
 DecodableJunk == {"tag", "bigint", "time"}
 
@@ -195,6 +198,8 @@ KindOf(x) ==
       [] x.k = "struct" -> "struct"
       [] x.k = "junk" -> (CASE x.v \in {"tag", "bigint", "time", "struct"} -> "struct"
                             [] x.v \in {"ptr", "nilptr", "nilre", "nil_wide", "nil_sub"} -> "ptr"
+                            [] x.v \in {"arr_int2", "arr_str2", "arr0", "arr_named"} -> "array"
+                            [] x.v = "map_arrkey" -> "map"
                             [] x.v = "func" -> "func"
                             [] x.v = "chan" -> "chan")
 
